@@ -117,6 +117,10 @@ func run(r *mon.Run) {
 			if g.Chance(1, 3) {
 				h[name] = append(h[name], "second", "")
 			}
+			if g.Chance(1, 6) {
+				// a field that is present with an empty value is still a field (its name is signed)
+				h[name] = mon.Pick(g, [][]string{{""}, {"", ""}, {" "}, {"", "x"}})
+			}
 			if g.Chance(1, 10) {
 				// header values are byte strings: octets that are not UTF-8, DEL and HTAB travel unchanged
 				h[name] = []string{mon.Pick(g, []string{"caf\xe9", "\xff\xfe", "a\x7fb", "tab\there", "\x80", "nbsp\xa0end", "\xc3("})}
@@ -166,6 +170,9 @@ func run(r *mon.Run) {
 			if g.Chance(1, 3) {
 				spec.ReqHeaders["Accept"] = []string{"*/*", "text/html"}
 				spec.ReqHeaders["x-REQ"] = []string{"1"}
+				if g.Bool() {
+					spec.ReqHeaders["X-Empty-Req"] = []string{""}
+				}
 			}
 		}
 		desc := fmt.Sprintf("%s curve=%d rs=%d payload=%d headers=%s status=%d method=%s", ver, id.Key.Curve.Params().BitSize, rs, plen, shape, spec.Status, spec.Method)
